@@ -1221,6 +1221,9 @@ def _from_nested(obj):
 
 def array(obj, dtype=None, copy=True, **kw):
     dt = globals()["dtype"](dtype) if dtype is not None else None
+    if not isinstance(obj, (ndarray, generic, SymPy, list, tuple)) and hasattr(obj, "__array__"):
+        r = obj.__array__()                  # the array-conversion protocol
+        return r.astype(dt) if dt is not None and dt is not r.dtype else (r.copy() if copy else r)
     cells, shape, src = _from_nested(obj)
     if src is None:
         src = dt or _F64
@@ -1233,6 +1236,8 @@ def array(obj, dtype=None, copy=True, **kw):
 def asarray(obj, dtype=None):
     if isinstance(obj, ndarray) and (dtype is None or globals()["dtype"](dtype) is obj.dtype):
         return obj
+    if not isinstance(obj, (ndarray, generic, SymPy, list, tuple)) and hasattr(obj, "__array__"):
+        return array(obj, dtype=dtype, copy=False)
     return array(obj, dtype=dtype)
 
 
